@@ -374,7 +374,7 @@ func (e *Engine) prepareReply(u *UpRec) {
 	if r.Fault == "abort" {
 		call.abortAt = len(body) / 2
 	}
-	m := judgeReply(call.Method, status, hdr)
+	m := judgeReplyAdded(call.Method, status, hdr, e.addedCachingHeaders())
 	u.Verdict = m
 	u.Shareable = m.Shareable && r.Fault == ""
 	u.Lifetime = m.Lifetime
@@ -749,9 +749,7 @@ func (e *Engine) crashRestart(i int, op *Op) {
 	atomic.StoreInt32(&e.mode, 1)
 	pikeserver.Reset(nil)
 	pikecache.ResetDispatchers(nil)
-	for k := range e.listeners {
-		delete(e.listeners, k)
-	}
+	e.clearListeners()
 	atomic.StoreInt32(&e.mode, 0)
 	pikeupstream.ResetWithOnStats(nil, nil)
 	pikelocation.Reset(nil)
@@ -851,4 +849,24 @@ func (e *Engine) checkDiskAfterPurge(t *Task, m *MiscRec) {
 		}
 	}
 	m.DiskChecked = any
+}
+
+// addedCachingHeaders: Cache-Control / Set-Cookie / Age lines the locations of any of the plan's
+// configurations add to every response (they reach pike's cacheability decision).
+func (e *Engine) addedCachingHeaders() http.Header {
+	var out http.Header
+	for _, c := range e.plan.Configs {
+		for _, l := range c.Locations {
+			for _, kv := range kvPairs(l.RespHeaders) {
+				switch http.CanonicalHeaderKey(kv[0]) {
+				case "Cache-Control", "Set-Cookie", "Age":
+					if out == nil {
+						out = http.Header{}
+					}
+					out.Add(kv[0], kv[1])
+				}
+			}
+		}
+	}
+	return out
 }
